@@ -1,8 +1,8 @@
-\* one reader (readers do not influence each other), two calls, Reset
+\* one reader, four writes (the shortest histories in which Next follows a stale link to a deleted or bypassed key), Reset
 SPECIFICATION MCSpec
 CONSTANTS
   NK = 3
-  MaxW = 3
+  MaxW = 4
   Readers = {1}
   MaxCalls = 2
   Ranges <- Ranges1
